@@ -98,8 +98,8 @@ def oracle(ctx, case, io):
         R, RM = retained(gg, pre, roots)
         for d in sorted(R):
             if lost(d) or (d in RM and mlost(d)):
-                sig = "C05:opaque-child-not-a-manifest" if (not lost(d) and opaque_listed(d)) else \
-                    ("C05:child-of-index-listed-as-image" if (not lost(d) and under_index_listed_as_image(d)) else "C05:retained-removed")
+                sig = "C05:child-of-index-listed-as-image" if (not lost(d) and under_index_listed_as_image(d)) else \
+                    ("C05:opaque-child-not-a-manifest" if (not lost(d) and opaque_listed(d)) else "C05:retained-removed")
                 ctx.violation("collection removed %s, referenced (transitively) by a retained manifest (tagged, young, or untagged with untagged collection off) or a referrer of one" % d[:19],
                               hist(digest=d), sig)
         for s_, lst in pre["refs"].items():
@@ -107,13 +107,22 @@ def oracle(ctx, case, io):
                 gone = set(lst) - set(post["refs"].get(s_, []))
                 if gone:
                     ctx.violation("referrers %s of the retained subject %s are no longer listed" % (sorted(x[:19] for x in gone), s_[:19]), hist(subject=s_), "C05:referrers-dropped")
+        if (pol.get("grace_ms") or 3600000) >= 0:
+            # an artifact pushed within the grace period stays listed as a referrer of its subject - retained, or not (yet) there at all
+            for s_, lst in pre["refs"].items():
+                if pre["blob"].get(s_) == 200 and not (s_ in RM and post["blob"].get(s_) == 200):
+                    continue          # (a subject this collection removes takes its referrers response with it: the policy's business)
+                gone = {a for a in lst if a in rstate[k][1]} - set(post["refs"].get(s_, []))
+                gone = {a for a in gone if post["blob"].get(a) == 200 or pre["blob"].get(a) == 200}
+                if gone:
+                    ctx.violation("referrers %s of %s, pushed within the grace period, are no longer listed" % (sorted(x[:19] for x in gone), s_[:19]), hist(subject=s_), "C05:young-referrer-dropped")
         # untagged collection off: every manifest stays
         if not dflt(pol.get("untagged"), False):
             for d in sorted(pre["man"]):
                 # artifacts (manifests with a subject) follow the referrers policy: covered by the clause above
                 if mlost(d) and not gg["man"].get(d, {}).get("subject"):
-                    sig = "C05:orphaned-child-collected" if orphan(d) else ("C05:opaque-child-not-a-manifest" if opaque_listed(d) else
-                                                                            ("C05:child-of-index-listed-as-image" if under_index_listed_as_image(d) else "C05:untagged-removed"))
+                    sig = "C05:orphaned-child-collected" if orphan(d) else ("C05:child-of-index-listed-as-image" if under_index_listed_as_image(d) else
+                                                                            ("C05:opaque-child-not-a-manifest" if opaque_listed(d) else "C05:untagged-removed"))
                     ctx.violation("untagged collection is off but manifest %s was removed" % d[:19], hist(digest=d), sig)
         # younger than the grace period
         if (pol.get("grace_ms") or 3600000) >= 0:
@@ -122,8 +131,8 @@ def oracle(ctx, case, io):
                     ctx.violation("collection removed blob %s which is younger than the grace period" % d[:19], hist(digest=d), "C05:young-removed")
                 elif mlost(d) and not gg["man"].get(d, {}).get("subject"):
                     # (an artifact follows the referrers policy of its subject; its bytes stay, checked above)
-                    sig = "C05:orphaned-child-collected" if orphan(d) else ("C05:opaque-child-not-a-manifest" if opaque_listed(d) else
-                                                                            ("C05:child-of-index-listed-as-image" if under_index_listed_as_image(d) else "C05:young-manifest-removed"))
+                    sig = "C05:orphaned-child-collected" if orphan(d) else ("C05:child-of-index-listed-as-image" if under_index_listed_as_image(d) else
+                                                                            ("C05:opaque-child-not-a-manifest" if opaque_listed(d) else "C05:young-manifest-removed"))
                     ctx.violation("collection removed manifest %s which is younger than the grace period" % d[:19], hist(digest=d), sig)
 
 
